@@ -563,3 +563,58 @@ def s9(ctx):
                           "reaches its content-based fallback and calendars / address books that were not created through the server are "
                           "reported with the wrong resource type" % (f.short, ", ".join(sorted(set(bad))))))
     return obs
+
+
+@rule("C18", "S10", floor=40, kind="S",
+      desc="hrefs the server hands out during discovery address what they were emitted for: names from the file system "
+           "and the configured principal path are neither normalised nor case-mapped on the way out or on the way back "
+           "in (same obligations as C16/N1)")
+def s10(ctx):
+    from .c16 import opaque_name_obligations
+    return opaque_name_obligations(ctx)
+
+
+@rule("C18", "S11", floor=1, kind="S",
+      desc="a Depth 1 listing shows every collection a direct URL would serve: TreeGitStore.subdirectories() lists every "
+           "directory entry except the control directory - no further test on what the directory contains (bare "
+           "repositories and plain grouping directories are served by get_resource too)")
+def s11(ctx):
+    fi = ctx.own_method("xandikos.store.git.TreeGitStore", "subdirectories")
+    cfg = ctx.cfg(fi)
+    obs = []
+
+    def allowed(t) -> bool:
+        if isinstance(t, ast.UnaryOp) and isinstance(t.op, ast.Not):
+            return allowed(t.operand)
+        if isinstance(t, ast.BoolOp):
+            return all(allowed(x) for x in t.values)
+        if isinstance(t, ast.Compare) and len(t.ops) == 1 and isinstance(t.ops[0], (ast.Eq, ast.NotEq, ast.In, ast.NotIn)):
+            sides = [t.left, t.comparators[0]]
+            return any((dotted(x) or "").endswith("CONTROLDIR") or (isinstance(x, ast.Constant) and x.value == ".git")
+                       or (isinstance(x, (ast.Tuple, ast.Set, ast.List)) and all(isinstance(e_, ast.Constant) and e_.value == ".git" or (dotted(e_) or "").endswith("CONTROLDIR") for e_ in x.elts))
+                       for x in sides)
+        if isinstance(t, ast.Call):
+            d = (dotted(t.func) or "").split(".")[-1]
+            return d in ("isdir", "is_dir")
+        return False
+
+    sites = []
+    for n in cfg.stmt_nodes():
+        for c in n.calls():
+            if isinstance(c.func, ast.Attribute) and c.func.attr in ("append", "add") and c.args:
+                sites.append((n, [t for t, _p in cfg.required_conditions(n)]))
+        if n.kind == "stmt" and isinstance(n.ast, ast.Expr) and isinstance(n.ast.value, ast.Yield):
+            sites.append((n, [t for t, _p in cfg.required_conditions(n)]))
+        for e in n.exprs():
+            for x in ast.walk(e):
+                if isinstance(x, (ast.ListComp, ast.GeneratorExp, ast.SetComp)) and any((dotted(g.iter.func) if isinstance(g.iter, ast.Call) else "") in ("os.listdir", "os.scandir") for g in x.generators):
+                    sites.append((n, [c_ for g in x.generators for c_ in g.ifs]))
+    if not sites:
+        raise AnalysisError("TreeGitStore.subdirectories: no place where a name is added to the result")
+    for n, conds in sites:
+        extra = [src(t) for t in conds if not allowed(t)]
+        obs.append(ctx.ob(not extra, fi.qualname, where(fi, n), "every directory except .git is listed",
+                          "conditions: not the control directory, is a directory",
+                          "TreeGitStore.subdirectories lists a directory only if `%s`: collections that a direct URL still serves (bare "
+                          "repositories, plain directories) are missing from their parent's Depth 1 listing" % " and ".join(extra)))
+    return obs
